@@ -41,6 +41,24 @@ func TestC17Client(t *testing.T) {
 			defer p.close()
 			cid := uniqueCID("c17c")
 			cln := &service.Client{ConnectTimeout: 5}
+			// every fifth case: a slow transport. The sender is delayed before each of its 8 KiB writes
+			// (delays only, at the ring's yield point), and the time Disconnect allows for draining is
+			// 1 s: it runs out while packets are still queued. What arrives is cut short at the close,
+			// and must still be a prefix of the whole packets.
+			slow := !raceEnabled && g%5 == 4
+			if slow {
+				cln.ConnectTimeout = 1
+				sizes = []int{150000, 200000, 180000}
+				hook := func(pt string, obj interface{}) {
+					if pt == "buf.peek.prelock" {
+						time.Sleep(60 * time.Millisecond)
+					}
+				}
+				yieldAnyBuf.Store(&hook)
+				defer yieldAnyBuf.Store(nil)
+				params["slow_transport"] = true
+				out.Count("c17.client_slow_runs", 1)
+			}
 			errc := make(chan error, 1)
 			go func() { errc <- cln.Connect(p.uri, clientConnectMsg(cid, 600)) }()
 			conn, err := p.acceptRaw(5 * time.Second)
